@@ -30,7 +30,8 @@ def main(argv):
                 t0 = time.time()
                 p = subprocess.run(['python3-vt', 'run.py', 'check', pid, '--tier', tier], cwd=VERIF, env=env, capture_output=True, text=True)
                 viol = [l for l in p.stdout.split('\n') if l.startswith('VIOLATION')]
-                out[pid] = {'exit': p.returncode, 'violations': [v[:400] for v in viol[:6]], 'n_violations': len(viol),
+                ded = [v for v in viol if ' obligation=%s/bounded:' % pid not in v]
+                out[pid] = {'exit': p.returncode, 'violations': [v[:400] for v in (ded[:3] + [v for v in viol if v not in ded][:3])], 'n_violations': len(viol), 'n_deductive': len(ded),
                             'seconds': round(time.time() - t0, 1), 'stderr_tail': p.stderr[-400:] if p.returncode not in (0, 1) else ''}
                 print(sid, pid, 'exit', p.returncode, 'violations', len(viol), '%.0fs' % (time.time() - t0))
                 for v in viol[:2]: print('    ', v[:260])
